@@ -122,6 +122,7 @@ static std::string get_in(Ctx& c, const J& v) {
     if (v.t == J::OBJ && v.has("from")) { auto it = c.saved->find(v["from"].str()); std::string s = it == c.saved->end() ? std::string() : it->second;
         if (v.has("flip") && !s.empty()) { size_t bit = v["flip"].num() % (s.size() * 8); s[bit / 8] ^= (char)(1 << (bit % 8)); }
         if (v.has("trunc")) { size_t n = v["trunc"].num(); if (n < s.size()) s.resize(n); }
+        if (v.has("off")) { size_t o = v["off"].num(); size_t n = v.has("n") ? (size_t)v["n"].num() : std::string::npos; s = o < s.size() ? s.substr(o, n) : std::string(); }
         return s; }
     return std::string();
 }
@@ -353,6 +354,7 @@ static J crypt_generic(Ctx& c, const std::string& f, const J& op, CK_SESSION_HAN
     if (f == "C_DigestInit") { Mech M; build_mech(c, op["mech"], M); CALL(F->C_DigestInit(hs, M.isnull ? nullptr : &M.m)); out.set("rv", (long)rv); return out; }
     if (f == "C_DigestKey") { CK_OBJECT_HANDLE hk = resolve(c, op["key"]); CALL(F->C_DigestKey(hs, hk)); out.set("rv", (long)rv); out.set("hk", (long)hk); return out; }
     std::string in = get_in(c, op["in"]);
+    out.set("inlen", (long)in.size());
     CK_BYTE_PTR inp = in.empty() && !op["in_nonnull"].boolean() ? (op["in"].isnull() ? nullptr : (CK_BYTE_PTR)"") : (CK_BYTE_PTR)in.data();
     // copy input to exact heap block
     Buf ib; if (!op["in"].isnull()) { ib.alloc(in.size()); if (!in.empty()) memcpy(ib.p, in.data(), in.size()); inp = ib.p; }
@@ -369,7 +371,12 @@ static J crypt_generic(Ctx& c, const std::string& f, const J& op, CK_SESSION_HAN
     // calls with an output buffer
     Buf ob; CK_ULONG olen = 0; CK_ULONG* polen = &olen;
     const J& cap = op["outcap"];
-    if (!cap.isnull()) { ob.alloc((size_t)cap.num()); olen = (CK_ULONG)cap.num(); }
+    if (cap.t == J::OBJ) {   // {"len": name, "plus": k}: the length a previous call reported (size query / CKR_BUFFER_TOO_SMALL), plus k
+        auto it = c.saved->find("len:" + cap["len"].str()); long base = it == c.saved->end() ? 0 : atol(it->second.c_str());
+        long n = base + cap["plus"].num(0); if (n < 0) n = 0; if (n > (1 << 22)) n = 1 << 22;
+        ob.alloc((size_t)n); olen = (CK_ULONG)n; out.set("cap", n);
+    }
+    else if (!cap.isnull()) { ob.alloc((size_t)cap.num()); olen = (CK_ULONG)cap.num(); }
     if (op.has("announce")) olen = (CK_ULONG)op["announce"].num();   // must never exceed the real block (generator's duty)
     if (op["lenptr_null"].boolean()) polen = nullptr;
     CK_BYTE_PTR outp = ob.isnull ? nullptr : ob.p;
@@ -393,8 +400,10 @@ static J crypt_generic(Ctx& c, const std::string& f, const J& op, CK_SESSION_HAN
     else if (f == "C_GetOperationState") CALL(F->C_GetOperationState(hs, outp, polen));
     else { out.set("rv", -1); out.set("unknown", f); return out; }
     out.set("rv", (long)rv); out.set("len", (long)olen);
+    if (op.has("savelen") && (rv == CKR_OK || rv == CKR_BUFFER_TOO_SMALL)) (*c.saved)["len:" + op["savelen"].str()] = std::to_string((long)olen);
     if (!ob.isnull) { size_t w = ob.touched(); out.set("touched", (long)w);
-        if (rv == CKR_OK) { size_t n = std::min<size_t>(olen, ob.cap); out.set("out", tohex(ob.p, n)); if (op.has("save")) (*c.saved)[op["save"].str()] = std::string((char*)ob.p, n); }
+        if (rv == CKR_OK) { size_t n = std::min<size_t>(olen, ob.cap); out.set("out", tohex(ob.p, n)); if (op.has("save")) (*c.saved)[op["save"].str()] = std::string((char*)ob.p, n);
+            if (op.has("append")) (*c.saved)[op["append"].str()] += std::string((char*)ob.p, n); }
         else if (w) out.set("dirty", tohex(ob.p, w)); }
     return out;
 }
